@@ -74,6 +74,7 @@ pub struct C14Stats {
     pub long_holds: u64,
     pub unflushed_tail_writes: u64,
     pub probes_refused_during_drop: u64,
+    pub second_open_probes: u64,
 }
 
 fn v(case: &C14Case, sig: &str, text: String) -> Viol {
@@ -502,80 +503,97 @@ pub fn run_one(case: &C14Case) -> Result<(C14Stats, Option<Viol>), RunErr> {
                 Some(l) => (top_term.max(l.0 + 1) + 1, l.1 + 1),
                 None => (top_term + 1, m2.st.purged.map(|p| p.1 + 1).unwrap_or(0)),
             };
-            let ops = vec![Op::Append(vec![(next, format!("c14-{}", next.1))]), Op::Purge(next)];
-            for op in &ops {
-                let o = ns.write(op);
-                if !o.is_ok() {
-                    out.viol = Some(v(case, "new_instance_write", format!("new instance: {} -> {}", op.brief(), o.brief())));
+            // before anything else: while this new instance is alive nobody else may open the directory (C13), whatever
+            // the dropped instance left behind
+            for as_dump in [false, true] {
+                let c = cfg.to_config(&dirs);
+                let second = crate::store::guarded(|| if as_dump { raft_log::Dump::<crate::store::V>::new(c).is_ok() } else { raft_log::RaftLog::<crate::store::V>::open(c).is_ok() });
+                out.stats.second_open_probes += 1;
+                if let Ok(true) = second {
+                    out.viol = Some(Viol { prop: "C13".into(), sig: "C13:two_owners:after_handover".into(), text: format!("the directory was re-opened after flush-ack + drop (placement {}); while that new instance is alive a second {} opened it as well", case.placement, if as_dump { "Dump" } else { "RaftLog" }), replay: json!({"kind": "c14", "case": case.to_json()}) });
                     ns.close_released();
                     out.done = true;
                     return Ok(());
                 }
-                crate::genr::Gen::apply_to_model(&mut m2, op);
             }
-            let (fid2, fo2) = ns.flush(true);
-            if !fo2.is_ok() {
-                out.viol = Some(v(case, "new_instance_flush_call", format!("{}", fo2.brief())));
-                ns.close_released();
-                out.done = true;
-                return Ok(());
-            }
-            // The new worker is gated like any worker: pump it until the ack. No clock decides the verdict: "never
-            // acknowledged" is concluded only from a state that cannot change any more - the new instance's worker thread
-            // has ended, or it sleeps outside the gate with requests unprocessed and nothing moves (see Settle::Stuck).
-            // Running out of time without either is inconclusive.
-            let old = out.old_tid;
-            let mut gone = false;
-            let acked = pump(None, &|| trace::ack_state(fid2).is_some(), 0.3) || {
-                let t0 = util::now_s();
-                let mut res = false;
-                let mut still = 0u32;
-                let mut last_sig = (0u64, 0u64, 0usize);
-                loop {
-                    if pump(None, &|| trace::ack_state(fid2).is_some(), 0.1) {
-                        res = true;
-                        break;
+            for round in 0..2u64 {
+                let next = (next.0, next.1 + round);
+                // round 0: append + purge + flush; round 1: one more append + flush (the worker must still be serving)
+                let ops = if round == 0 { vec![Op::Append(vec![(next, format!("c14-{}", next.1))]), Op::Purge(next)] } else { vec![Op::Append(vec![(next, format!("c14-{}", next.1))])] };
+                for op in &ops {
+                    let o = ns.write(op);
+                    if !o.is_ok() {
+                        out.viol = Some(v(case, "new_instance_write", format!("new instance: {} -> {}", op.brief(), o.brief())));
+                        ns.close_released();
+                        out.done = true;
+                        return Ok(());
                     }
-                    let new_workers: Vec<i32> = trace::gate_lanes(Role::Worker).into_iter().map(|l| l.0).filter(|t| Some(*t) != old).collect();
-                    if !new_workers.is_empty() && new_workers.iter().all(|t| !trace::thread_alive(*t)) {
-                        gone = true;
-                        break;
-                    }
-                    let (s, d) = ns.seq();
-                    let sig = (s, d, trace::ev_count());
-                    let asleep = !new_workers.is_empty()
-                        && new_workers.iter().all(|t| std::fs::read_to_string(format!("/proc/self/task/{}/stat", t)).ok().and_then(|x| x.rsplit(") ").next().and_then(|r| r.chars().next())) == Some('S'))
-                        && !trace::gate_all_lanes().iter().any(|(_, w, _)| w.is_some());
-                    if asleep && sig == last_sig && d < s {
-                        still += 1;
-                        if still >= 10 {
+                    crate::genr::Gen::apply_to_model(&mut m2, op);
+                }
+                let (fid2, fo2) = ns.flush(true);
+                if !fo2.is_ok() {
+                    out.viol = Some(v(case, "new_instance_flush_call", format!("{}", fo2.brief())));
+                    ns.close_released();
+                    out.done = true;
+                    return Ok(());
+                }
+                // The new worker is gated like any worker: pump it until the ack. No clock decides the verdict: "never
+                // acknowledged" is concluded only from a state that cannot change any more - the new instance's worker thread
+                // has ended, or it sleeps outside the gate with requests unprocessed and nothing moves (see Settle::Stuck).
+                // Running out of time without either is inconclusive.
+                let old = out.old_tid;
+                let mut gone = false;
+                let acked = pump(None, &|| trace::ack_state(fid2).is_some(), 0.3) || {
+                    let t0 = util::now_s();
+                    let mut res = false;
+                    let mut still = 0u32;
+                    let mut last_sig = (0u64, 0u64, 0usize);
+                    loop {
+                        if pump(None, &|| trace::ack_state(fid2).is_some(), 0.1) {
+                            res = true;
+                            break;
+                        }
+                        let new_workers: Vec<i32> = trace::gate_lanes(Role::Worker).into_iter().map(|l| l.0).filter(|t| Some(*t) != old).collect();
+                        if !new_workers.is_empty() && new_workers.iter().all(|t| !trace::thread_alive(*t)) {
                             gone = true;
                             break;
                         }
-                    } else {
-                        still = 0;
-                        last_sig = sig;
+                        let (s, d) = ns.seq();
+                        let sig = (s, d, trace::ev_count());
+                        let asleep = !new_workers.is_empty()
+                            && new_workers.iter().all(|t| std::fs::read_to_string(format!("/proc/self/task/{}/stat", t)).ok().and_then(|x| x.rsplit(") ").next().and_then(|r| r.chars().next())) == Some('S'))
+                            && !trace::gate_all_lanes().iter().any(|(_, w, _)| w.is_some());
+                        if asleep && sig == last_sig && d < s {
+                            still += 1;
+                            if still >= 10 {
+                                gone = true;
+                                break;
+                            }
+                        } else {
+                            still = 0;
+                            last_sig = sig;
+                        }
+                        if util::now_s() - t0 > 60.0 {
+                            break;
+                        }
                     }
-                    if util::now_s() - t0 > 60.0 {
-                        break;
-                    }
+                    res
+                };
+                let (sent, done) = ns.seq();
+                if !acked && !gone {
+                    ns.close_released();
+                    return Err(RunErr::Inconclusive("new instance: no acknowledgement within 60 s although its worker is alive and moving".into()));
                 }
-                res
-            };
-            let (sent, done) = ns.seq();
-            if !acked && !gone {
-                ns.close_released();
-                return Err(RunErr::Inconclusive("new instance: no acknowledgement within 60 s although its worker is alive and moving".into()));
-            }
-            if !acked || trace::ack_state(fid2) != Some(trace::AckState::Ok) {
-                out.viol = Some(v(
-                    case,
-                    "new_instance_flush_never_acked",
-                    format!("new instance: purge + flush was not acknowledged Ok (callback {:?}, worker processed {}/{} requests): its worker stopped on the chunk files the dropped instance's worker removed underneath it", trace::ack_state(fid2), done, sent),
-                ));
-                ns.close_released();
-                out.done = true;
-                return Ok(());
+                if !acked || trace::ack_state(fid2) != Some(trace::AckState::Ok) {
+                    out.viol = Some(v(
+                        case,
+                        "new_instance_flush_never_acked",
+                        format!("new instance: purge + flush was not acknowledged Ok (callback {:?}, worker processed {}/{} requests): its worker stopped on the chunk files the dropped instance's worker removed underneath it", trace::ack_state(fid2), done, sent),
+                    ));
+                    ns.close_released();
+                    out.done = true;
+                    return Ok(());
+                }
             }
             out.stats.new_instance_flushes_acked += 1;
             let _ = pump(None, &|| ns.idle(), 10.0);
@@ -632,6 +650,7 @@ pub fn run_shard(ctx: &mut Ctx) {
                 ctx.out.count("reopen_while_old_worker_still_parked", s.reopen_while_old_worker_parked);
                 ctx.out.count("opener_parked_inside_open", s.opener_parked_mid_open);
                 ctx.out.count("new_instance_purge_flush_acked", s.new_instance_flushes_acked);
+                ctx.out.count("second_open_attempts_while_the_new_instance_was_alive", s.second_open_probes);
                 ctx.out.count("cases_holding_the_worker_parked_for_400ms", s.long_holds);
                 ctx.out.count("unflushed_writes_after_the_last_ack", s.unflushed_tail_writes);
                 ctx.out.count("open_attempts_refused_while_drop_in_progress", s.probes_refused_during_drop);
